@@ -109,6 +109,7 @@ def labware_op(name, sign, exc, limit_clause):
             ("history-unchanged", "same(self._history, old_self._history) and same(self._labels, old_self._labels)", ["C11"]),
             ("offending-step-not-applied", f"(same(self._volumes, {op}(old_self._volumes, contrib_upto(self, wells, volumes, loop_index()))) if in_loop() else same(self._volumes, old_self._volumes))", ["C02"]),
             ("frame", "fields_unchanged(self, old_self, ['_volumes'])", ["C02", "C04", "C11"]),
+            ("history-entries-stay-snapshots", "not_aliased(last(self._history), self._volumes)", ["C11", "C04"]),
         ],
         loops={0: LoopSpec(k="k",
                            defs={"self._volumes": f"{op}(old_self._volumes, contrib_upto(old_self, wells, volumes, k))"},
